@@ -12,7 +12,7 @@ ASSUMPTIONS = {
     'A-mpsc': 'tokio mpsc: poll_recv is FIFO, None is stable, Pending registers the waker',
     'A-sink': 'the transport obeys the futures Sink/Stream contract (Fuse included)',
     'A-abortable': 'futures Abortable/AbortHandle semantics; Rust drop order',
-    'A-ids': 'request ids reaching the dispatch are pairwise distinct (AtomicUsize::fetch_add, fewer than 2^64 calls per channel)',
+    'A-ids': 'request ids reaching the dispatch are pairwise distinct: AtomicUsize::fetch_add is atomic and a channel sees fewer than 2^64 calls (that every clone of a client handle shares the ONE counter and the same dispatch queues is proved: `Clone for Channel` is under contract in unit client)',
     'A-pair': 'Channel::call enqueues the sender of the receiver it then awaits, with the id it allocated',
     'A-codec': 'tokio-util length-delimited framing, tokio-serde JSON/bincode and serde_derive output are correct',
     'A-otel': 'tracing-opentelemetry bridge functions used for trace-context extraction',
